@@ -2155,4 +2155,132 @@ theorem smParseFLine (pre t : Buf) (o : Nat) (pl : PFLine) (hfit : pre.size + t.
       · rw [hm] at h2; cases h2
       · exact Or.inr (Or.inr h2)
 
+/-! #### error exits, the header section, the whole call -/
+
+theorem shMsg_err (k : Nat) (m : PSIPMsg) (hst : m.state = .fline ∨ m.state = .headers) :
+    shMsg k { m with state := .err } = { shMsg k m with state := .err } := by
+  rcases hst with h | h <;> (unfold shMsg; simp only [h, shMb, shMl, shMo])
+
+/-- the error exits: `X` is the moved `m` up to the stale restart offset, exactly when the verdict is MoreBytes -/
+theorem smMsgErr (k : Nat) (X m : PSIPMsg) (o : Nat) (e : Err) (flags : Nat)
+    (hst : m.state = .fline ∨ m.state = .headers)
+    (hobs : ({ X with pv := smHvObs X.pv } : PSIPMsg) = { shMsg k m with pv := smHvObs (shHv k m.pv) })
+    (hex : e = .moreBytes → X = shMsg k m) : smResM k (msgErr X (k + o) e flags) (msgErr m o e flags) := by
+  have herr : smRelM k { X with state := .err } { m with state := .err } := by
+    refine ⟨?_, fun hh => absurd rfl hh⟩
+    rw [shMsg_err k m hst]
+    have := congrArg (fun z : PSIPMsg => ({ z with state := MsgState.err } : PSIPMsg)) hobs
+    exact this
+  unfold msgErr
+  by_cases h1 : (e != .moreBytes) = true
+  · simp only [h1, ↓reduceIte]
+    exact ⟨rfl, rfl, herr⟩
+  · simp only [h1, Bool.false_eq_true, ↓reduceIte]
+    by_cases h2 : hasFlag flags SIPMsgNoMoreDataF = true
+    · simp only [h2, ↓reduceIte]
+      exact ⟨rfl, rfl, herr⟩
+    · simp only [h2, Bool.false_eq_true, ↓reduceIte]
+      have he : e = .moreBytes := by simpa using h1
+      rw [hex he]
+      exact ⟨rfl, rfl, smRelM_refl k m⟩
+
+theorem smGetD_exact (k : Nat) (hb : Option PHdrVals) (pv : PHdrVals) :
+    (hb.map (shHv k)).getD (shHv k pv) = shHv k (hb.getD pv) := by
+  cases hb <;> rfl
+
+theorem smGetD_obs (k : Nat) (x hb : Option PHdrVals) (pv : PHdrVals)
+    (h : x.map smHvObs = (hb.map (shHv k)).map smHvObs) :
+    smHvObs (x.getD (shHv k pv)) = smHvObs (shHv k (hb.getD pv)) := by
+  cases x <;> cases hb <;> simp only [Option.map_some, Option.map_none, Option.some.injEq] at h
+  · rfl
+  · cases h
+  · cases h
+  · exact h
+
+/-- **a legitimate message object** for the shift theorem at offset `o`: the hypotheses of the panic-freedom theorem
+    (`msgOK2`, `MsgSafe`) plus: the call has not terminated, the first line is legitimate (`FlSh`; new before the first
+    call), and the header in progress and the values satisfy `HlSh`. Holds for every object produced by Init
+    (`MsgAll_init`) and again after MoreBytes at the returned offset, also on a grown buffer (`parseSIPMsg_shift`). -/
+structure MsgAll (t : Buf) (o : Nat) (m : PSIPMsg) : Prop where
+  ok2 : msgOK2 t o m
+  safe : MsgSafe t o m
+  st : m.state = .init ∨ m.state = .fline ∨ m.state = .headers ∨ m.state = .body
+  flNew : m.state = .init → m.fl = {}
+  fl : m.state = .fline → FlSh m.fl
+  sh : m.state ≠ .body → HlSh t o (m.hl.cur, some m.pv)
+  idle : m.state = .init ∨ m.state = .fline → ¬ m.hl.cur.state.isVal
+
+theorem HlSh.monoNV {t : Buf} {i j : Nat} {st : HLσ} (h : HlSh t i st) (hij : i ≤ j) (hj : j ≤ t.size)
+    (hnv : ¬ st.1.state.isVal) : HlSh t j st :=
+  ⟨fun hh => by have := h.pos hh; omega, h.valNz, h.nameNz,
+   fun hv hh => (h.hv hv hh).monoNV hij hj (isVal_hContact hnv) (isVal_hPAI hnv)⟩
+
+/-- the header section -/
+theorem smMsgHeaders (pre t : Buf) (o : Nat) (m : PSIPMsg) (flags : Nat) (hfit : pre.size + t.size ≤ 65535)
+    (hst : m.state = .headers) (hA : HlsAll t o m.hl (some m.pv)) :
+    smResM pre.size (msgHeaders (pre ++ t) (pre.size + o) (shMsg pre.size m) flags) (msgHeaders t o m flags) ∧
+      ((msgHeaders t o m flags).2.1 = .moreBytes →
+        (msgHeaders t o m flags).2.2.state ≠ .body →
+          HlSh t (msgHeaders t o m flags).1 ((msgHeaders t o m flags).2.2.hl.cur, some (msgHeaders t o m flags).2.2.pv)) := by
+  obtain ⟨hb'', p1, p2, p3⟩ := parseHeaders_shift pre t o m.hl (some m.pv) hfit hA
+  have hsafe := parseHeaders_safe t o m.hl (some m.pv) (by omega) hA.ok1 hA.ok2 hA.pend hA.ho hA.safe
+  have hsome := parseHeaders_isSome t o m.hl m.pv
+  rw [msgHeaders_eq, msgHeaders_eq]
+  have e0 : parseHeaders (pre ++ t) (pre.size + o) (shMsg pre.size m).hl (some (shMsg pre.size m).pv) =
+      parseHeaders (pre ++ t) (pre.size + o) (shHls pre.size m.hl) ((some m.pv).map (shHv pre.size)) := rfl
+  rw [e0, p1]
+  rcases hp : parseHeaders t o m.hl (some m.pv) with ⟨o1, e1, hl1, hb1⟩
+  rw [hp] at p2 p3 hsafe hsome
+  simp only at p2 p3 hsafe hsome
+  cases hb1 with
+  | none => cases hsome
+  | some pv1 =>
+  have ho1 : o1 ≤ t.size := hsafe.2.2.2.2
+  have herr : ∀ e : Err, e ≠ .ok → e = e1 →
+      smResM pre.size
+        (msgErr { shMsg pre.size m with hl := shHls pre.size hl1, pv := hb''.getD (shMsg pre.size m).pv } (pre.size + o1) e flags)
+        (msgErr { m with hl := hl1, pv := pv1 } o1 e flags) := by
+    intro e _ he
+    subst he
+    refine smMsgErr pre.size _ { m with hl := hl1, pv := pv1 } o1 e flags (Or.inr hst) ?_ (fun hm => ?_)
+    · have := smGetD_obs pre.size hb'' (some pv1) m.pv p2.1
+      show ({ shMsg pre.size m with hl := shHls pre.size hl1, pv := smHvObs (hb''.getD (shHv pre.size m.pv)) } : PSIPMsg) = _
+      rw [this]
+      unfold shMsg; rfl
+    · have := p2.2 (Or.inr (Or.inl hm))
+      subst this
+      unfold shMsg; rfl
+  unfold afterHeaders
+  cases e1 <;> simp only [Option.getD_some]
+  case ok =>
+    have hx : hb'' = (some pv1).map (shHv pre.size) := p2.2 (Or.inl rfl)
+    subst hx
+    have e9 : ({ shMsg pre.size m with hl := shHls pre.size hl1, pv := ((some pv1).map (shHv pre.size)).getD (shMsg pre.size m).pv, state := MsgState.body } : PSIPMsg) = { shMsg pre.size { m with hl := hl1, pv := pv1, state := .body } with body := m.body } := by
+      unfold shMsg; simp only [hst, shMb, shMl, shMo]; rfl
+    rw [e9, msgBody_body_irrel]
+    refine ⟨smResM_of_eq (smMsgBody pre t o1 _ flags rfl ho1 hfit), fun hm hnb => ?_⟩
+    exfalso
+    have := msgBody_resume t #[] o1 { m with hl := hl1, pv := pv1, state := .body } flags flags
+      (o' := (msgBody t o1 { m with hl := hl1, pv := pv1, state := .body } flags).1)
+      (m' := (msgBody t o1 { m with hl := hl1, pv := pv1, state := .body } flags).2.2) (Prod.ext rfl (Prod.ext hm rfl))
+    apply hnb
+    rw [this.2.1]
+  case moreBytes =>
+    refine ⟨herr _ (by decide) rfl, ?_⟩
+    generalize hme : msgErr ({ m with hl := hl1, pv := pv1 } : PSIPMsg) o1 Err.moreBytes flags = r
+    intro hm _
+    rcases r with ⟨o2, e2, m2⟩
+    simp only at hm
+    subst hm
+    obtain ⟨_, rfl, rfl⟩ := msgErr_more_inv _ _ _ _ hme
+    exact p3 rfl
+  all_goals
+    refine ⟨herr _ (by decide) rfl, ?_⟩
+    generalize hme : msgErr ({ m with hl := hl1, pv := pv1 } : PSIPMsg) o1 _ flags = r
+    intro hm
+    rcases r with ⟨o2, e2, m2⟩
+    simp only at hm
+    subst hm
+    exact absurd (msgErr_more_inv _ _ _ _ hme).1 (by decide)
+
 end Sipsp
